@@ -116,16 +116,23 @@ def bounded_connect_helpers(tier, seed):
                             if len(failures) >= 5:
                                 return {"bound": _bound(max_src, max_dest), "cases": cases, "nontrivial": nontrivial, "failures": failures}
         # connect_many_to_one
+        # (src_set is typed Iterable[Entity]: lists, tuples, sets and one-shot iterables alike)
+        shapes = {"list": list, "tuple": tuple, "generator": lambda xs: (x for x in xs), "iterator": iter,
+                  "filter": lambda xs: filter(None, xs), "dict keys": lambda xs: dict.fromkeys(xs).keys()}
         for ns in range(0, 4):
             for ar in (False, True):
-                cases += 1
-                rec = _Recorder()
-                src = [f"s{i}" for i in range(ns)]
-                U.connect_many_to_one(rec, src, "d", "a", ("b", "c"), async_requests=ar)
-                exp = [(s, "d", ("a", ("b", "c")), {"async_requests": ar}) for s in src]
-                if rec.calls != exp:
-                    failures.append({"desc": f"connect_many_to_one({src}, 'd', async_requests={ar}) made {rec.calls}, expected {exp}",
-                                     "case": {"ns": ns, "async_requests": ar}})
+                for kind, make in shapes.items():
+                    cases += 1
+                    rec = _Recorder()
+                    names = [f"s{i}" for i in range(ns)]
+                    try:
+                        U.connect_many_to_one(rec, make(names), "d", "a", ("b", "c"), async_requests=ar)
+                    except Exception as e:  # noqa: BLE001
+                        rec.calls.append(("raised", repr(e)))
+                    exp = [(s_, "d", ("a", ("b", "c")), {"async_requests": ar}) for s_ in names]
+                    if rec.calls != exp:
+                        failures.append({"desc": f"connect_many_to_one(<{kind} of {names}>, 'd', async_requests={ar}) made {rec.calls}, expected {exp}",
+                                         "case": {"ns": ns, "async_requests": ar, "src_set": kind}})
     finally:
         random.randint, random.shuffle = real_randint, real_shuffle
         U.random.randint, U.random.shuffle = real_randint, real_shuffle
@@ -136,4 +143,4 @@ def bounded_connect_helpers(tier, seed):
 
 def _bound(ms, md):
     return (f"0..{ms} sources x 1..{md} distinct destinations x (evenly | max_connects in 1, 2, 3, inf with enough capacity) x EVERY outcome "
-            f"of random.randint / random.shuffle; connect_many_to_one for 0..3 sources")
+            f"of random.randint / random.shuffle; connect_many_to_one for 0..3 sources given as list / tuple / generator / iterator / filter / dict keys")
